@@ -2,7 +2,7 @@ SPECIFICATION Spec
 CHECK_DEADLOCK FALSE
 CONSTANTS
   Threads = {t1}
-  Seeds = {1, 2, 3, 4, 5, 6, 7, 8}
+  Seeds = {1, 2, 3, 4}
   Msgs = {0, 1, 2}
   MaxCalls = 1
   MaxRetry = 0
